@@ -22,4 +22,18 @@ PROPS = {
         level_note="assumes non-negative offsets/lengths and the ordered-map reading of the immutable radix tree; trusted: Coq kernel, harness, accessor file pkg/filetracker/export_verif.go",
         explanation="theorem over all write histories; correspondence = exhaustive small histories and random longer ones probed at every offset",
     ),
+    "C21": dict(
+        model="Model/Param.v",
+        oracle="ParamCheck.case_spec_ok (reference decoder dec_string on the implementation's strings)",
+        theorems_named="C21_fuse_roundtrip / C21_pg_roundtrip / C21_enc_dec / C21_never_refuses",
+        assumptions=[
+            "strings are sequences of Unicode code points (valid UTF-8); rune arithmetic past U+D7FF (surrogates) is not modelled",
+            "the reference decoder is the documented format as implemented by hack/fuse-demo/wrap_datamon.sh (first two characters = separators, empty items dropped, bare name = true, '.' refused)",
+            "bundle / database names are distinct (a Go map keyed by name holds the result)",
+        ],
+        trusted=[],
+        level_text="C21_fuse_roundtrip and C21_pg_roundtrip are proved for every parameter set over arbitrary code points: whenever the encoder model succeeds every generated variable decodes to exactly the flags and non-empty parameters given; C21_never_refuses shows the separator test cannot fire after separator selection; the encoder model is compared with FUSEParamsToEnvVars / PGParamsToEnvVars on directed (every boundary code point) and random parameter sets each run and the reference decoder is run on the implementation's own strings",
+        level_note="assumes valid UTF-8 values and distinct bundle/database names; the shell decoder itself is modelled (dec_string), not executed; trusted: Coq kernel, harness",
+        explanation="round-trip theorem over all parameter sets; correspondence on directed boundary and random sets",
+    ),
 }
